@@ -405,6 +405,7 @@ class _Kernel(ast.NodeTransformer):
             raise TranslationError("prange with else")
         pos = list(it.args)
         nthreads, nowait = None, False
+        schedule, chunksize = None, ast.Constant(value=None)
         for kw in it.keywords:
             if kw.arg == "num_threads":
                 nthreads = kw.value
@@ -412,8 +413,13 @@ class _Kernel(ast.NodeTransformer):
                 pass
             elif kw.arg == "nowait":
                 nowait = bool(getattr(kw.value, "value", False))
-            elif kw.arg in ("schedule", "chunksize"):
-                raise TranslationError("explicit prange schedule not supported")
+            elif kw.arg == "schedule":
+                if not (isinstance(kw.value, ast.Constant) and kw.value.value in (
+                        "static", "dynamic", "guided", "runtime", None)):
+                    raise TranslationError("prange schedule must be a literal")
+                schedule = kw.value.value
+            elif kw.arg == "chunksize":
+                chunksize = self.visit(kw.value)
             else:
                 raise TranslationError("prange keyword %s" % kw.arg)
         if not isinstance(node.target, ast.Name):
@@ -427,6 +433,14 @@ class _Kernel(ast.NodeTransformer):
             body.extend(r if isinstance(r, list) else [r])
         priv, red = _assigned_names(body)
         tgt = node.target.id
+        pure_red = sorted(n for n in red if n not in priv and n not in self.mv and n != tgt
+                          and not n.startswith("_"))
+        for n in pure_red:
+            for sub in body:
+                for a in ast.walk(sub):
+                    if isinstance(a, ast.AugAssign) and isinstance(a.target, ast.Name) and \
+                            a.target.id == n and not isinstance(a.op, (ast.Add, ast.Sub)):
+                        raise TranslationError("reduction operator on %s not supported" % n)
         priv = {n for n in (priv | red | {tgt}) if n not in self.mv}
         reductions = sorted(n for n in red if n not in self.mv)
         self.counter += 1
@@ -448,18 +462,30 @@ class _Kernel(ast.NodeTransformer):
         site = "%s:prange%d" % (self.fname, self.counter)
         if was_region:
             # work sharing loop inside a parallel region, executed by every thread of the team
+            if pure_red:
+                raise TranslationError("reduction in a work sharing loop not supported")
             stmt = ast.Expr(value=_yf(_call(
                 ast.Attribute(value=_name("_RT"), attr="workshare", ctx=ast.Load()),
                 [_name("_P"), ast.Constant(value=site), rng, _name(fn),
-                 ast.Constant(value=nowait)])))
+                 ast.Constant(value=nowait), ast.Constant(value=schedule), chunksize])))
             return [ast.copy_location(fdef, node), ast.copy_location(stmt, node)]
         call = ast.Assign(
             targets=[_name("_ret", ast.Store())],
             value=_call(ast.Attribute(value=_name("_RT"), attr="parallel_for", ctx=ast.Load()),
                         [rng, nthreads or ast.Constant(value=None), _name(fn),
                          ast.Constant(value=tuple(sorted(priv))), ast.Constant(value=tuple(reductions)),
-                         ast.Constant(value=site)]))
+                         ast.Constant(value=site), ast.Constant(value=schedule), chunksize]))
         post = []
+        # pure reductions (only ever updated in place): original value + sum of the thread
+        # local copies, combined in thread order
+        for n in pure_red:
+            post.append(ast.Assign(
+                targets=[_name(n, ast.Store())],
+                value=ast.BinOp(left=_name(n), op=ast.Add(), right=ast.Subscript(
+                    value=ast.Subscript(value=_name("_ret"), slice=ast.Constant(value="__red__"),
+                                        ctx=ast.Load()),
+                    slice=ast.Constant(value=n), ctx=ast.Load()))))
+        priv = priv - set(pure_red)
         # lastprivate values are visible after the loop (sequentially last iteration)
         for n in sorted(priv):
             post.append(ast.If(
